@@ -225,7 +225,7 @@ def units(ci, live, mode, depth=3):
         if m.node.name not in live:
             continue
         if m.node.name not in called_with_args or m.node.name in bare or not m.node.name.startswith("_"):
-            out.append((m, astq.PrunedFn(m, consts), None))
+            out.append((m, astq.PrunedFn(m, consts, subst=True), None))
     work = [(u[1], 0) for u in out]
     seen = set()
     while work:
@@ -241,7 +241,7 @@ def units(ci, live, mode, depth=3):
                 sp = astq.SpecialisedFn(callee, holder, n)
                 if not sp.bound_params:
                     continue
-                pf = astq.PrunedFn(sp, consts)
+                pf = astq.PrunedFn(sp, consts, subst=True)
                 out.append((callee, pf, f"{holder.node.name}:{getattr(n, 'lineno', 0)}"))
                 work.append((pf, d + 1))
     return out
@@ -413,7 +413,17 @@ def pick(prog, run, ci, f):
                 return ast.literal_eval(e) == -1
             except Exception:
                 return False
-        pops = [(n, iv) for n, iv in pops if not _is_last(iv)]
+        # an index chosen by a conditional expression (`-1 if <last> else <nearest>`): each alternative is judged
+        flat = []
+        for n, iv in pops:
+            todo = [iv]
+            while todo:
+                x_ = todo.pop()
+                if isinstance(x_, ast.IfExp):
+                    todo += [x_.body, x_.orelse]
+                else:
+                    flat.append((n, x_))
+        pops = [(n, iv) for n, iv in flat if not _is_last(iv)]
         if not pops:
             has_any = any(isinstance(n, ast.Call) and isinstance(n.func, ast.Attribute) and n.func.attr in ("pop", "remove") or isinstance(n, ast.Delete) for n in ast.walk(h.node))
             run.ob("R-pick", h.qual, "deselect-nearest", None if not has_any else False, "no pop(i) on the frequency list", witness="missing", file=f, node=h.node)
